@@ -36,6 +36,16 @@ CLAIMED = {
         technique="TLA+ spec Fleet (retry loop, cached client, scripted node) checked by TLC over every outcome script; the scripts played against the real Fleet/AsyncFleet by a scripted fake node, single-stepped through a probe, and the recorded attempts trace-validated by TLC",
         text="TLC checks the retry-loop model for max_attempts 1..3 over every script of length <= max+2 of the seven outcomes (AttemptBound, RetryOnlyTransport, StopAtFirstReply, NotWedged), with must-violate configurations for the retryable-error set. The same scripts are then played by a scripted TCP node against the real blocking and async fleets (all scripts for max 1-2, sampled for max 3 in the quick tier, all in the thorough tier), the retry loop single-stepped through a hook probe; each attempt (what the node did, what the loop saw), the call result and the two healthy-phase calls are validated by the trace specification. Broadcasts over every tag subset on 4 nodes are validated the same way.",
         note="Trusts TLC, the fake node, and the two add-only hook lines per retry loop (probe + attempt event). Time enters only through the node timeout of silent outcomes."),
+    "C01": dict(
+        category="model_checking", design_ref="DESIGN.md §5 C01",
+        technique="TLA+ spec RepeWire (header layout over byte tuples, U64 arithmetic) evaluated by TLC over pairwise boundary patterns; the specification's frames compared byte for byte with every emission route and parsed back; random frames trace-validated by TLC",
+        text="The specification lays out the 48 header bytes from byte-tuple fields; TLC enumerates boundary patterns (all-00, all-FF, 80.., ..01, 7F.., ramp) of the seven free fields pairwise with payload lengths 0..2 and checks decode.encode = id and the length equation on the spec (ASSUME LayoutProps). Each vector's frame is compared byte for byte with to_vec, write_to, into_wire_bytes (capacity below / one below / equal / above), write_message, write_message_streaming and write_message_async, and parsed back with all nine parsers and readers. Random full-range frames with payloads to 64 KiB are validated by TLC against HeaderBytes, the 64-bit length equation, route equality and round trip.",
+        note="Encode/decode fidelity is a weaker fit for TLA+ than protocol properties: TLA+ decides field order, widths, byte order, the length equation and region offsets; large payload equality is a memcmp in the recorder. Server/client emission routes are covered by C03/C04 engines."),
+    "C02": dict(
+        category="model_checking", design_ref="DESIGN.md §5 C02",
+        technique="TLA+ verdict functions (RepeWire.SliceVerdict / HeaderVerdict / StreamVerdict, exact 64-bit arithmetic) enumerated by TLC over the boundary-class product; every vector executed on nine entry points in a child process; random and mutated buffers trace-validated by TLC",
+        text="TLC enumerates ~35 000 header vectors (each length field over 0, small, =buffer, +-1, 2^31, 2^32, 2^62, 2^63, u64::MAX-k, with totals equal to the exact sum, the sum +-1 and the wrapped sum; buffer lengths around 48; good/bad magic) with the specification's verdict per entry family. Every vector runs on Header::decode, Message/MessageView::from_slice(_exact), read_message(_into)(_async) in a child process so panics and aborts are attributed to their input; ok/err and the returned query/body regions must match. 4 000 (quick) / 40 000 (thorough) random and structurally mutated buffers are judged by TLC recomputing the verdict.",
+        note="Silent out-of-bounds reads are not detectable here (they would panic in safe Rust). Stream readers get declared sizes <= 16 MiB or >= 2^62 only, as the property prescribes. Error kinds are not compared."),
 }
 
 NOT_YET = {}
